@@ -356,6 +356,8 @@ func genCrash(w *bufio.Writer, root string, seed uint64, n, ops int, thorough bo
 		var live []int64
 		t := int64(1_000_000)
 		keys := []string{"", hexKey("a"), hexKey("b"), hexKey("ab")}
+		nonMono := r.chance(30)
+		dipLeft, dipT := 0, int64(0)
 
 		// every op runs under the tap; its images are observed right after it
 		doOp := func(line string) string {
@@ -434,7 +436,20 @@ func genCrash(w *bufio.Writer, root string, seed uint64, n, ops int, thorough bo
 				fmt.Fprintf(&sb, "pub %d", nm)
 				for i := 0; i < nm; i++ {
 					t += int64(r.intn(3))
-					fmt.Fprintf(&sb, " %d:%s:%s", t, keys[r.intn(len(keys))], hex.EncodeToString(randBytes(r, r.intn(24))))
+					mt := t
+					// in some histories the times dip below an earlier one for two or more messages in a row (the index
+					// carries the running maximum: every place that derives an index must carry the same thing)
+					if nonMono {
+						if dipLeft == 0 && r.chance(25) {
+							dipLeft, dipT = 2+r.intn(2), t-2-int64(r.intn(6))
+						}
+						if dipLeft > 0 {
+							dipLeft--
+							dipT += int64(r.intn(2))
+							mt = dipT
+						}
+					}
+					fmt.Fprintf(&sb, " %d:%s:%s", mt, keys[r.intn(len(keys))], hex.EncodeToString(randBytes(r, r.intn(24))))
 				}
 				res := doOp(sb.String())
 				if strings.HasPrefix(res, "ok ") {
